@@ -27,13 +27,20 @@ RULE = ('1-6 route declarations (literals over an alphabet with every regex meta
         'predicates evaluated on requests with a query string (required value given / another / empty / key missing / key twice) and '
         'X-Requested-With, per history step; custom predicates answering with non-bool truthy / falsy values (None, 0, \'\', (), [], {}, '
         "0.0 / 1, 'y', (0,), [0], {..}, 1.5, an object); traverse= hybrid routes (TraversePredicate) whose captures contain characters "
-        "URL quoting changes and *remainder tuples, also with a placeholder itself called 'traverse'")
+        "URL quoting changes and *remainder tuples, also with a placeholder itself called 'traverse'; round 6: REAL header= "
+        "predicates ('Name', 'Name:regex', SEQUENCES of 1-3 requirements, negated) on requests with headers (required header "
+        'missing / present with matching or non-matching value, names in other case or with _ for -), REAL request_method= predicates '
+        '(single and tuples) on GET / POST / HEAD / PUT requests (GET implies HEAD), placeholders and remainders NAMED subpath / traverse '
+        '(names the traverser reads) observed through request.matchdict in the view; the router-mode observation is handed over '
+        'in-process (HEAD responses have no body)')
 ASSUMPTIONS = [
     'route patterns are str; {name:regex} regexes outside the sublanguage (a non-empty sequence of atoms \\d \\w . [set] [^set] or a '
     'plain character, each with quantifier none + * ? {n} {n,} {,m} {n,m}) are classified Unsupported by the model and excluded',
     'Unicode classification of non-ASCII characters by \\w and \\d is an oracle computed with re itself per case; '
     'theorems hold for every oracle',
-    'route predicates are modelled as pure functions of (request method, match dictionary, query parameters, X-Requested-With); '
+    'route predicates are modelled as pure functions of (request method, match dictionary, query parameters, X-Requested-With, headers); '
+    'header regexes outside the sublanguage of {name:regex} are Unsupported (excluded); header names Content-Type / Content-Length / Host '
+    'are not used; header lookup = WSGI key HTTP_ + upper-cased name with - replaced by _ (modelled, validated by correspondence); '
     'the VALUE a traverse= route stores under matchdict[\'traverse\'] (URL generation + traversal_path: C06 / C02) is not compared, '
     'only the presence of the key and every captured entry',
     "WebOb's parsing of the query string into request.params is not modelled: the model receives the (key, value) pairs the harness "
@@ -48,13 +55,16 @@ TRUSTED = [
     'regenerated string literals), Router.handle_request, RoutesMapper.__init__, update_pattern, the rest of add_route / '
     'route_prefix_context with the translated fragments cut out, the request chain of Router, get_routes_mapper, the predicate '
     'list machinery of config/predicates.py and the predicate classes the runs use (shape pins: RequestParamPredicate.__init__ -- '
-    'hand-modelled as param_parse --, XHRPredicate, TraversePredicate, CustomPredicate, Notted, RequestMethodPredicate, HeaderPredicate)',
+    'hand-modelled as param_parse --, HeaderPredicate.__init__ -- header_parse --, RequestMethodPredicate.__init__ -- method_init_model --, '
+    'XHRPredicate.__init__, TraversePredicate, CustomPredicate, Notted)',
+    'the fail-closed scan c01facts.matchdict_sites (which functions of the package write to or hand on the live match dictionary)',
     "CPython re for the supported sublanguage and re.escape, WebOb's PATH_INFO decoding (modelled, validated by the "
     'correspondence run, not verified)',
 ]
 TECHNIQUE = ('control-flow model REGENERATED from the source on every run by a fail-closed Python-ast -> Gallina translator '
              '(RoutesMapper.__call__, RoutesMapper.connect, Route.__init__, the matcher closure of _compile_route, split_path_info, '
-             'decode_path_info, the listings get_routes / has_routes / get_route, RequestParamPredicate.__call__, the route-prefix '
+             'decode_path_info, the listings get_routes / has_routes / get_route, the __call__ of RequestParamPredicate / HeaderPredicate / '
+             'XHRPredicate / RequestMethodPredicate, the route-prefix '
              'fragments of Configurator.add_route / route_prefix_context) + Coq proofs that the regenerated program equals the hand-written reference model and satisfies '
              'the property theorems + regenerated string facts + differential correspondence of the extracted regenerated program')
 LEVEL_TEXT = ('Machine-checked theorems for every pattern of the modelled sublanguage, every path and every route list: the '
@@ -66,14 +76,17 @@ LEVEL_TEXT = ('Machine-checked theorems for every pattern of the modelled sublan
               'route qualifies; URLDecodeError before any matching for invalid UTF-8), independently of earlier dispatches. Request '
               'predicates: the regenerated RequestParamPredicate.__call__ holds iff every required key is present (last value) and every '
               'required value, the empty one included, equals it; resolving request predicates on the request and dispatching with the '
-              'regenerated program equals the declarative specification; a traverse= route keeps every captured entry. The '
+              'regenerated program equals the declarative specification; a traverse= route keeps every captured entry. The regenerated '
+              'HeaderPredicate.__call__ holds iff EVERY requirement holds (order irrelevant), request_method= adds HEAD exactly when GET is '
+              'listed; only the matcher closure and TraversePredicate.__call__ write to the match dictionary (structural fact). The '
               'extracted regenerated program is run against RoutesMapper and Router.')
 LEVEL_NOTE = ('Trusted: Coq kernel; the translator and its primitive table (harness/c01/translate.py); the hand-written model of the '
               'pattern parser (masked pin + regenerated literals) and the link between the matcher closure\'s groupdict and the '
               'AST-level matcher (validated by correspondence); Python harness; re / re.escape / WebOb decoding modelled not '
               'verified; arbitrary user regexes inside {name:regex} are outside the model; Router.handle_request is pinned, not '
-              'translated; RequestParamPredicate.__init__ (param_parse), XHRPredicate, TraversePredicate are hand-modelled and pinned; the '
-              'value stored under matchdict[traverse] and header / accept / path_info predicates with satisfiable values are not modelled; '
+              'translated; the __init__ of the predicate classes (param_parse, header_parse, method_init_model) and TraversePredicate are '
+              'hand-modelled and pinned; the value stored under matchdict[traverse] and accept / path_info / match_param predicates are '
+              'not modelled; '
               'pregenerators and debug_routematch logging not covered.')
 
 facts = c01facts.facts
@@ -116,6 +129,13 @@ def valid(case):
                 elif p[0] == 'xhr':
                     if len(p) != 3 or p[1] not in (0, 1) or p[2] not in (0, 1):
                         return False
+                elif p[0] == 'rmethod':
+                    if len(p) != 3 or p[1] not in (0, 1) or not p[2] or not all(x in ('GET', 'POST', 'HEAD', 'PUT') for x in p[2]):
+                        return False
+                elif p[0] == 'header':
+                    # 'Name' / 'Name:regex'; the regex must compile (else add_route raises ConfigurationError)
+                    if len(p) != 3 or p[1] not in (0, 1) or not p[2] or not all(_header_val_ok(x) for x in p[2]):
+                        return False
                 elif p[0] == 'traverse':
                     # the traverse pattern may only use names the route pattern captures (else the generator raises KeyError)
                     if len(p) != 2 or not isinstance(p[1], str) or not _traverse_ok(d['pattern'], p[1]):
@@ -127,6 +147,8 @@ def valid(case):
         for rq in [case.get('req')] + [st.get('req') for st in case.get('history') or []]:
             if rq is not None and not (rq['xhr'] in (0, 1) and all(isinstance(k, str) and isinstance(v, str) for k, v in rq['q'])):
                 return False
+            if rq is not None and not _hdrs_ok(rq.get('hdr') or []):
+                return False
         if case['path'] is not None:
             if not isinstance(case['path'], str) or any(ord(c) > 255 for c in case['path']):
                 return False
@@ -137,12 +159,42 @@ def valid(case):
                 if st['list'][0] not in ('routes', 'has', 'get') or (st['list'][0] == 'get' and not isinstance(st['list'][1], str)):
                     return False
                 continue
-            if not isinstance(st['path'], str) or any(ord(c) > 255 for c in st['path']) or st['method'] not in ('GET', 'POST'):
+            if not isinstance(st['path'], str) or any(ord(c) > 255 for c in st['path']) or st['method'] not in ('GET', 'POST', 'HEAD', 'PUT'):
                 return False
             for op in st['mutate']:
                 if op[0] not in ('set', 'add', 'del', 'conv') or not isinstance(op[1], int):
                     return False
-        return case['mode'] in ('mapper', 'router') and case['method'] in ('GET', 'POST')
+        return case['mode'] in ('mapper', 'router') and case['method'] in ('GET', 'POST', 'HEAD', 'PUT')
+    except Exception:
+        return False
+
+
+_HNAME = re.compile(r'[A-Za-z][A-Za-z0-9_-]*\Z')
+
+
+def _header_val_ok(x):
+    if not isinstance(x, str):
+        return False
+    name, _, rx = x.partition(':')
+    if not _HNAME.match(name) or name.upper().replace('_', '-') in ('CONTENT-TYPE', 'CONTENT-LENGTH', 'X-REQUESTED-WITH', 'HOST'):
+        return False
+    try:
+        re.compile(rx)
+    except re.error:
+        return False
+    return True
+
+
+def _hdr_key(name):
+    return 'HTTP_' + name.upper().replace('-', '_')
+
+
+def _hdrs_ok(hdr):
+    # request headers: ASCII names and values, distinct WSGI keys (the environ is a dict)
+    try:
+        keys = [_hdr_key(n) for n, v in hdr]
+        return all(_header_val_ok(n) and isinstance(v, str) and v.isascii() and '\n' not in v and '\r' not in v for n, v in hdr) \
+            and len(set(keys)) == len(keys)
     except Exception:
         return False
 
@@ -191,12 +243,16 @@ def _pred_wire(p):
         return [4, int(p[1]), int(p[2])]
     if p[0] == 'traverse':
         return [6, p[1]]
+    if p[0] == 'header':
+        return [5, int(p[1]), list(p[2])]
+    if p[0] == 'rmethod':
+        return [7, int(p[1]), list(p[2])]
     return [2, p[1], p[2]]
 
 
 def _req_wire(rq):
     rq = rq or {'q': [], 'xhr': 0}
-    return [[[k, v] for k, v in rq['q']], int(rq['xhr'])]
+    return [[[k, v] for k, v in rq['q']], int(rq['xhr']), [[n, v] for n, v in rq.get('hdr') or []]]
 
 
 def _step_wire(st):
@@ -208,8 +264,21 @@ def _step_wire(st):
     return [[st['path']], st['method']]
 
 
+def _router_real_method(d):
+    """router mode: a declaration's single plain `method` predicate is passed as the REAL request_method= argument
+    (RequestMethodPredicate: GET implies HEAD), so that is what the model is told"""
+    meth = [p for p in d['preds'] if p[0] == 'method']
+    if len(meth) == 1 and len(meth[0]) == 2 and not any(p[0] == 'rmethod' for p in d['preds']):
+        return meth[0]
+    return None
+
+
 def to_wire(case):
-    decls = [[d['name'], d['pattern'], int(d['static']), [_pred_wire(p) for p in d['preds']],
+    def pw(d, p):
+        if case['mode'] == 'router' and p is _router_real_method(d):
+            return [7, 0, [p[1]]]
+        return _pred_wire(p)
+    decls = [[d['name'], d['pattern'], int(d['static']), [pw(d, p) for p in d['preds']],
               list(d.get('levels') or []), int(d.get('inherit') or 0)] for d in case['decls']]
     raw = [] if case['path'] is None else [case['path']]
     return [_oracle(case), decls, raw, case['method'], 1 if case['mode'] == 'router' else 0,
@@ -277,13 +346,17 @@ _BASELEN = {'const': 2, 'method': 2, 'eq': 3}
 
 def _mk_pred(p, ridx, calls):
     kind = p[0]
-    if kind in ('param', 'xhr', 'traverse'):
+    if kind in ('param', 'xhr', 'traverse', 'header', 'rmethod'):
         # the REAL predicate classes, built the way PredicateList.make builds them
         from pyramid import predicates as P
         if kind == 'param':
             real = P.RequestParamPredicate(p[2][0] if len(p[2]) == 1 else tuple(p[2]), None)
         elif kind == 'xhr':
             real = P.XHRPredicate(bool(p[2]), None)
+        elif kind == 'rmethod':
+            real = P.RequestMethodPredicate(p[2][0] if len(p[2]) == 1 else tuple(p[2]), None)
+        elif kind == 'header':
+            real = P.HeaderPredicate(p[2][0] if len(p[2]) == 1 else tuple(p[2]), None)
         else:
             real = P.TraversePredicate(p[1], None)
         if kind != 'traverse' and p[1]:
@@ -328,6 +401,8 @@ def _environ_extra(environ, rq):
         environ['HTTP_X_REQUESTED_WITH'] = 'XMLHttpRequest'
     else:
         environ.pop('HTTP_X_REQUESTED_WITH', None)
+    for n, v in rq.get('hdr') or []:
+        environ[_hdr_key(n)] = v
 
 
 def _dict_obs(match):
@@ -441,11 +516,13 @@ def _run_router(case):
 
     def view(request):
         body = json.dumps({'name': request.matched_route.name, 'match': _dict_obs(request.matchdict)})
+        cur['seen'] = body          # (a HEAD response has no body: the observation is handed over in-process)
         _mutate(request.matchdict, cur['ops'])
         return Response(body=body.encode('utf-8'), content_type='application/json')
 
     def notfound(request):
         mr = getattr(request, 'matched_route', None)
+        cur['seen'] = json.dumps({'name': None, 'matched': mr.name if mr is not None else None})
         return Response(body=json.dumps({'name': None, 'matched': mr.name if mr is not None else None}).encode('utf-8'),
                         content_type='application/json')
 
@@ -467,8 +544,8 @@ def _run_router(case):
             # harness (no X-Requested-With, no query string, no X-Nope header), plain or wrapped in not_(); the rest as
             # custom predicates.  Kind order in the predicate list: xhr, request_method, request_param, header, custom.
             from pyramid.config import not_
-            meth = [p for p in d['preds'] if p[0] == 'method']
-            real = {id(meth[0]): ('request_method', meth[0][1])} if len(meth) == 1 and len(meth[0]) == 2 else {}
+            rm = _router_real_method(d)
+            real = {id(rm): ('request_method', rm[1])} if rm is not None else {}
             kinds_free = [('xhr', True), ('request_param', 'zz_nope'), ('header', 'X-Nope')]
             for p in d['preds']:
                 # request predicates proper: the real request_param= / xhr= / traverse= arguments
@@ -477,6 +554,12 @@ def _run_router(case):
                     real[id(p)] = ('request_param', not_(v) if p[1] else v)
                 elif p[0] == 'xhr':
                     real[id(p)] = ('xhr', not_(bool(p[2])) if p[1] else bool(p[2]))
+                elif p[0] == 'header':
+                    v = p[2][0] if len(p[2]) == 1 else tuple(p[2])
+                    real[id(p)] = ('header', not_(v) if p[1] else v)
+                elif p[0] == 'rmethod':
+                    v = p[2][0] if len(p[2]) == 1 else tuple(p[2])
+                    real[id(p)] = ('request_method', not_(v) if p[1] else v)
                 elif p[0] == 'traverse':
                     real[id(p)] = ('traverse', p[1])
             taken = set(k for k, _ in real.values())
@@ -515,9 +598,10 @@ def _run_router(case):
         environ['PATH_INFO'] = path
         _environ_extra(environ, rq)
         cur['ops'] = ops
+        cur['seen'] = None
         try:
-            body = b''.join(app(environ, start_response))
-            j = json.loads(body.decode('utf-8'))
+            b''.join(app(environ, start_response))
+            j = json.loads(cur['seen'])
             if j['name'] is None:
                 return [2] if not j.get('matched') else ['route-matched-but-no-view', j['matched']]
             return [1, seen[j['name']], _canon_traverse(case, seen[j['name']], j['match'])]
@@ -648,6 +732,28 @@ def kinds(case, obs):
             k.append('pred-request_param-negated')
     if any(p[0] == 'xhr' for p in allp):
         k.append('pred-xhr')
+    if any(p[0] == 'rmethod' for p in allp):
+        k.append('pred-request_method')
+        if case['method'] == 'HEAD' and any(p[0] == 'rmethod' and 'GET' in p[2] and 'HEAD' not in p[2] for p in allp):
+            k.append('pred-request_method-GET-on-HEAD-request')
+    k.append('method-' + case['method'])
+    if any(p[0] == 'header' for p in allp):
+        k.append('pred-header')
+        if any(p[0] == 'header' and len(p[2]) > 1 for p in allp):
+            k.append('pred-header-sequence')
+            hk = set(_hdr_key(n) for n, _ in (case.get('req') or {}).get('hdr') or [])
+            for p in allp:
+                if p[0] == 'header' and len(p[2]) > 1:
+                    present = [_hdr_key(x.partition(':')[0]) in hk for x in sorted(p[2])]
+                    if present[0] and not all(present):
+                        k.append('pred-header-sequence-first-present-other-missing')
+                        break
+    if any(v.get('hdr') for v in [case.get('req') or {}]):
+        k.append('request-with-headers')
+    if any(n in ('subpath', 'traverse') for d in case['decls'] for n in _NAMES.findall(d['pattern'])):
+        k.append('placeholder-named-subpath-or-traverse')
+        if out[0] == 1 and any(kk in ('subpath', 'traverse') for kk, _ in out[2]):
+            k.append('matchdict-with-key-subpath-or-traverse-' + case['mode'])
     if (case.get('req') or {}).get('q'):
         k.append('request-with-query')
     if any(p[0] in _BASELEN and len(p) > _BASELEN[p[0]] and p[-1] % len(FALSY) for p in allp):
